@@ -83,6 +83,42 @@ func runC13Symlink(job *Job, res *Result) {
 				Signature: res.Scenario + "|input-not-resolved|" + c.name})
 		}
 	}
+	// extra files that are NOT regular files: symbolic links the command leaves in its working directory
+	// (ln -s {i:ref} ref.fa, latest.log -> run1.log) are moved to the same relative location like any other file
+	{
+		dir := filepath.Join(job.Base, "e", "link-extras", "cwd")
+		os.RemoveAll(filepath.Join(job.Base, "e", "link-extras"))
+		os.MkdirAll(dir, 0777)
+		os.Chdir(dir)
+		vs.Cwd = dir
+		os.WriteFile("in.txt", []byte("IN\n"), 0644)
+		errLog.Reset()
+		s := vs.RunOnce(nil, func() {
+			wf := sp.NewWorkflowCustomLogFile("c13", 2, "/dev/null")
+			src := components.NewFileSource(wf, "src", "in.txt")
+			p := wf.NewProc("p", "cat {i:in} > {o:out} && echo log > run1.log && ln -s run1.log latest.log && mkdir -p logs && ln -s ../run1.log logs/current.log")
+			p.SetOut("out", "res.txt")
+			p.In("in").From(src.Out())
+			wf.Run()
+		}, nil)
+		n++
+		os.Chdir("/")
+		missing := []string{}
+		for _, l := range []string{"latest.log", "logs/current.log"} {
+			if fi, err := os.Lstat(filepath.Join(dir, l)); err != nil || fi.Mode()&os.ModeSymlink == 0 {
+				missing = append(missing, l)
+			}
+		}
+		if _, err := os.Stat(filepath.Join(dir, "run1.log")); err != nil {
+			missing = append(missing, "run1.log")
+		}
+		res.Samples = append(res.Samples, fmt.Sprintf("link-extras: outcome[%s] not at their relative location: %v", s.Outcome, missing))
+		if s.Outcome != "" || len(missing) > 0 {
+			res.Violations = append(res.Violations, Violation{Prop: job.Prop, Class: "extra-misplaced", Job: job.ID,
+				Detail:    fmt.Sprintf("extra files the command left in its working directory (symbolic links among them) are not at the same relative location afterwards: %v (outcome '%s')", missing, s.Outcome),
+				Signature: res.Scenario + "|extra-misplaced|link-extras"})
+		}
+	}
 	os.RemoveAll(filepath.Join(job.Base, "e"))
 	res.Stats = vs.Stats{Mode: "enumeration", Execs: n, Transitions: n, Nodes: n, Closed: true}
 	res.NOutcomes = n
